@@ -49,6 +49,8 @@ pub struct EnvCfg {
   pub script: Vec<Event>,
   pub burst_sizes: Vec<usize>,
   pub max_bursts: usize,
+  /// every notification carries exactly one event (trades batching for history length)
+  pub single_event_wakeups: bool,
 }
 
 pub struct Env<'a> {
@@ -177,7 +179,7 @@ impl<'a> ScriptedDriver for Env<'a> {
           }
         }
         let first = am[c].clone();
-        let mut stop = matches!(first, Item::EndK | Item::EndT | Item::Burst(_));
+        let mut stop = matches!(first, Item::EndK | Item::EndT | Item::Burst(_)) || self.cfg.single_event_wakeups;
         self.deliver(first);
         while !stop {
           let am2 = self.arrival_menu();
@@ -298,6 +300,8 @@ pub fn judge(layout: &Layout, x: &Exec) -> (Option<Discrepancy>, Stats) {
   // physical key state as the loop has read it since the last fresh start (decides which events are key *changes*)
   let mut phys: Vec<KeyCode> = vec![];
   let mut timer_cancelled_by_tablet = false;
+  // once a tablet event has been read, what the loop writes for key events is C12's subject ("resumes as from a fresh start"; C10 sets tablet mode aside)
+  let mut seen_tablet = false;
   let absorbable: Vec<KeyCode> = layout.mappings.iter().flat_map(|m| m.absorbing.iter().cloned()).collect();
   let d = |prop, clause, detail: String, at| Some(Discrepancy { prop, also: None, clause, detail, at_call: at });
   for (i, c) in x.log.iter().enumerate() {
@@ -305,8 +309,8 @@ pub fn judge(layout: &Layout, x: &Exec) -> (Option<Discrepancy>, Stats) {
     // an owed write must be the very next driver call
     if let Some(e) = expect.take() {
       match (e, c) {
-        (Expect::Step(exp), Call::Send { evs, .. }) => { if *evs != exp { return (d("C10", "wrong-step-output-written", format!("written {} expected the mapper's output {}", ev_str(evs), ev_str(&exp)), i), st); } fold(&mut held, evs); st.steps_sent += 1; last_poll_timed_out = false; continue; }
-        (Expect::Step(exp), other) => { if matches!(other, Call::Failed { .. }) { break; } return (d("C10", "step-output-not-written-at-once", format!("mapper output {} was not written before {:?}", ev_str(&exp), other), i), st); }
+        (Expect::Step(exp), Call::Send { evs, .. }) => { if *evs != exp { return (d(if seen_tablet { "C12" } else { "C10" }, if seen_tablet { "not-a-fresh-start-after-tablet-mode" } else { "wrong-step-output-written" }, format!("written {} expected {} output {}", ev_str(evs), if seen_tablet { "a fresh mapper's" } else { "the mapper's" }, ev_str(&exp)), i), st); } fold(&mut held, evs); st.steps_sent += 1; last_poll_timed_out = false; continue; }
+        (Expect::Step(exp), other) => { if matches!(other, Call::Failed { .. }) { break; } return (d(if seen_tablet { "C12" } else { "C10" }, if seen_tablet { "not-a-fresh-start-after-tablet-mode" } else { "step-output-not-written-at-once" }, format!("{} output {} was not written before {:?}", if seen_tablet { "a fresh mapper's" } else { "the mapper's" }, ev_str(&exp), other), i), st); }
         (Expect::Chord(exp), Call::Send { evs, .. }) => {
           if *evs != exp { return (d("C11", "wrong-chord-payload", format!("chord written {} expected {} (keys held on the virtual keyboard: {:?})", ev_str(evs), ev_str(&exp), held), i), st); }
           let before = held.clone(); fold(&mut held, evs);
@@ -339,7 +343,7 @@ pub fn judge(layout: &Layout, x: &Exec) -> (Option<Discrepancy>, Stats) {
           if timer_cancelled_by_tablet { if let Some(x) = dd.as_mut() { x.also = Some("C12"); } }
           return (dd, st);
         }
-        return (d("C10", "unexpected-write", format!("{} written although the mapper produced no output to write", ev_str(evs)), i), st);
+        return (d(if seen_tablet { "C12" } else { "C10" }, if seen_tablet { "not-a-fresh-start-after-tablet-mode" } else { "unexpected-write" }, format!("{} written although {} produced no output to write", ev_str(evs), if seen_tablet { "a mapper started afresh at the last tablet-mode change" } else { "the mapper" }), i), st);
       }
       Call::Poll { timeout_us, at_us, ret, after_us, unread_k, unread_t, label } => {
         if reads_this_wakeup > 1 { st.multi_event_wakeups += 1; }
@@ -388,6 +392,7 @@ pub fn judge(layout: &Layout, x: &Exec) -> (Option<Discrepancy>, Stats) {
         if *end { st.ended = true; continue; }
         if let Some(b) = ev {
           tablet = *b;
+          seen_tablet = true;
           if timer.is_some() { timer_cancelled_by_tablet = true; }
           timer = None;
           phys.clear();
